@@ -71,6 +71,9 @@ type Builder struct {
 
 	// All comments from everywhere in every parsed file.
 	endLineToCommentGroup map[fileLine]*ast.CommentGroup
+	// The lines, of every parsed file, which hold code (as opposed to blank
+	// lines and lines which hold nothing but comments).
+	codeLines map[fileLine]bool
 
 	// map of package to list of packages it imports.
 	importGraph map[importPathString]map[string]struct{}
@@ -111,6 +114,7 @@ func New() *Builder {
 		absPaths:              map[importPathString]string{},
 		userRequested:         map[importPathString]bool{},
 		endLineToCommentGroup: map[fileLine]*ast.CommentGroup{},
+		codeLines:             map[fileLine]bool{},
 		importGraph:           map[importPathString]map[string]struct{}{},
 	}
 }
@@ -213,7 +217,10 @@ func (b *Builder) addFile(pkgPath importPathString, path string, src []byte, use
 	b.userRequested[pkgPath] = userRequested || b.userRequested[pkgPath]
 
 	b.parsed[pkgPath] = append(b.parsed[pkgPath], parsedFile{path, p})
-	trailing := trailingCommentGroups(b.fset, p)
+	trailing, codeEnd := trailingCommentGroups(b.fset, p)
+	for line := range codeEnd {
+		b.codeLines[line] = true
+	}
 	for _, c := range p.Comments {
 		if trailing[c] {
 			// Not a candidate for the comment block above a declaration.
@@ -237,15 +244,20 @@ func (b *Builder) addFile(pkgPath importPathString, path string, src []byte, use
 
 // trailingCommentGroups returns the comment groups of f which start on a line
 // after some code ("x int // like this").  Such a comment documents what
-// precedes it; it is never the doc comment of the next declaration.
-func trailingCommentGroups(fset *token.FileSet, f *ast.File) map[*ast.CommentGroup]bool {
+// precedes it; it is never the doc comment of the next declaration.  The second
+// result holds the lines of f which hold code.
+func trailingCommentGroups(fset *token.FileSet, f *ast.File) (map[*ast.CommentGroup]bool, map[fileLine]token.Pos) {
 	// The last position of any code on each line.
-	codeEnd := map[int]token.Pos{}
+	codeEnd := map[fileLine]token.Pos{}
+	lineOf := func(pos token.Pos) fileLine {
+		position := fset.Position(pos)
+		return fileLine{position.Filename, position.Line}
+	}
 	mark := func(pos token.Pos) {
 		if !pos.IsValid() {
 			return
 		}
-		if line := fset.Position(pos).Line; pos > codeEnd[line] {
+		if line := lineOf(pos); pos > codeEnd[line] {
 			codeEnd[line] = pos
 		}
 	}
@@ -273,11 +285,11 @@ func trailingCommentGroups(fset *token.FileSet, f *ast.File) map[*ast.CommentGro
 	})
 	trailing := map[*ast.CommentGroup]bool{}
 	for _, c := range f.Comments {
-		if end, ok := codeEnd[fset.Position(c.Pos()).Line]; ok && end < c.Pos() {
+		if end, ok := codeEnd[lineOf(c.Pos())]; ok && end < c.Pos() {
 			trailing[c] = true
 		}
 	}
-	return trailing
+	return trailing, codeEnd
 }
 
 // AddDir adds an entire directory, scanning it for go files. 'dir' should have
@@ -605,11 +617,22 @@ func (b *Builder) addCommentsToType(obj tc.Object, t *types.Type) {
 	c1 := b.priorCommentLines(obj.Pos(), 1)
 	// c1.Text() is safe if c1 is nil
 	t.CommentLines = splitLines(c1.Text())
-	if c1 == nil {
-		t.SecondClosestCommentLines = splitLines(b.priorCommentLines(obj.Pos(), 2).Text())
-	} else {
-		t.SecondClosestCommentLines = splitLines(b.priorCommentLines(c1.List[0].Slash, 2).Text())
+	pos := obj.Pos()
+	if c1 != nil {
+		pos = c1.List[0].Slash
 	}
+	c2 := b.priorCommentLines(pos, 2)
+	if !b.blankLineAbove(pos) {
+		// What ends two lines above belongs to the code in between.
+		c2 = nil
+	}
+	t.SecondClosestCommentLines = splitLines(c2.Text()) // safe if c2 is nil
+}
+
+// blankLineAbove tells whether the line before pos holds no code.
+func (b *Builder) blankLineAbove(pos token.Pos) bool {
+	position := b.fset.Position(pos)
+	return !b.codeLines[fileLine{position.Filename, position.Line - 1}]
 }
 
 // findTypesIn finalizes the package import and searches through the package
